@@ -240,3 +240,76 @@ func vp_C11_resolve() {
 	// which branch wins under v1 depends on SHA-1 values (idealised in the engine), so the witness is the disjunction
 	vpReach("a-fork-event-wins", got[fa.EventID()] || got[fb.EventID()])
 }
+
+// vp:check C10 both configs=version:2|10|12 K=24 timeout=1200 maporder=github.com/matrix-org/gomatrixserverlib.ResolveStateConflictsV2New|github.com/matrix-org/gomatrixserverlib.splitConflictedUnconflicted|github.com/matrix-org/gomatrixserverlib.eventMapFromEvents|github.com/matrix-org/gomatrixserverlib.kahnsAlgorithmUsingAuthEvents|github.com/matrix-org/gomatrixserverlib.kahnsAlgorithmUsingPrevEvents
+// vp:check C11 both configs=version:10|12 K=24 timeout=1200 maporder=github.com/matrix-org/gomatrixserverlib.ResolveStateConflictsV2New|github.com/matrix-org/gomatrixserverlib.splitConflictedUnconflicted|github.com/matrix-org/gomatrixserverlib.eventMapFromEvents|github.com/matrix-org/gomatrixserverlib.kahnsAlgorithmUsingAuthEvents|github.com/matrix-org/gomatrixserverlib.kahnsAlgorithmUsingPrevEvents
+// vp_C10_power_order: two power events for one key (join rules) in two branches, sent by users of different standing:
+// the power ordering sorts by the sender's power (greatest first), then timestamp, then ID, and the event applied
+// last wins. Branch A's sender is the room creator or a second user (in version 12: an additional creator, whose
+// power is above every level; before: a user of symbolic level), branch B's sender has a symbolic level. Both orders
+// of the state sets must give the same winner, and it must be the one the ordering defines.
+func vp_C10_power_order() {
+	ver := RoomVersion(vpConfig("version"))
+	h := &vpRoomHistory{ver: ver, createID: vpCreateID(ver)}
+	h.room = vpRoomIDFor(ver, h.createID)
+	createRoom := h.room
+	createContent := vpJObj("creator", vpAlice, "room_version", string(ver))
+	if vpIsV12(ver) {
+		createRoom = ""
+		createContent = vpJObj("room_version", string(ver), "additional_creators", vpJArr(vpCarol))
+	}
+	const lim = int64(1)<<53 - 1
+	b, c := vpNondetI64("level.bob"), vpNondetI64("level.carol")
+	vpAssume(b >= 50 && b <= lim && c >= 50 && c <= lim)
+	create := vpSetAuth(vpMkEvent(ver, h.createID, createRoom, vpAlice, spec.MRoomCreate, vpStrPtr(""), createContent), nil, 1, 1)
+	join := vpSetAuth(vpMkEvent(ver, "$join:x", h.room, vpAlice, spec.MRoomMember, vpStrPtr(vpAlice), vpJObj("membership", spec.Join)), []string{h.createID}, 2, 2)
+	users := vpJObj(vpAlice, int64(100), vpBob, b, vpCarol, c)
+	if vpIsV12(ver) {
+		users = vpJObj(vpBob, b) // creators are not listed
+	}
+	pl := vpSetAuth(vpMkEvent(ver, "$pl:x", h.room, vpAlice, spec.MRoomPowerLevels, vpStrPtr(""), vpJObj("users", users, "state_default", int64(50))), []string{h.createID, "$join:x"}, 3, 3)
+	base3 := []string{h.createID, "$join:x", "$pl:x"}
+	jr0 := vpSetAuth(vpMkEvent(ver, "$jr0:x", h.room, vpAlice, spec.MRoomJoinRules, vpStrPtr(""), vpJObj("join_rule", spec.Public)), base3, 4, 4)
+	bobJoin := vpSetAuth(vpMkEvent(ver, "$bj:x", h.room, vpBob, spec.MRoomMember, vpStrPtr(vpBob), vpJObj("membership", spec.Join)), []string{h.createID, "$pl:x", "$jr0:x"}, 5, 5)
+	carolJoin := vpSetAuth(vpMkEvent(ver, "$cj:x", h.room, vpCarol, spec.MRoomMember, vpStrPtr(vpCarol), vpJObj("membership", spec.Join)), []string{h.createID, "$pl:x", "$jr0:x"}, 6, 6)
+	agreed := []PDU{create, join, pl, bobJoin, carolJoin}
+	senderA := vpChoice("sender_a", vpAlice, vpCarol)
+	memberA := "$join:x"
+	if senderA == vpCarol {
+		memberA = "$cj:x"
+	}
+	tsA, tsB := 10+vpNondetBits("tsA", 4), 10+vpNondetBits("tsB", 4)
+	fa := vpSetAuth(vpMkEvent(ver, "$jra:x", h.room, senderA, spec.MRoomJoinRules, vpStrPtr(""), vpJObj("join_rule", spec.Invite)), []string{h.createID, "$pl:x", memberA}, tsA, 7)
+	fb := vpSetAuth(vpMkEvent(ver, "$jrb:x", h.room, vpBob, spec.MRoomJoinRules, vpStrPtr(""), vpJObj("join_rule", spec.Knock)), []string{h.createID, "$pl:x", "$bj:x"}, tsB, 7)
+	setA := append(append([]PDU{}, agreed...), fa)
+	setB := append(append([]PDU{}, agreed...), fb)
+	auth := append(append([]PDU{}, agreed...), jr0)
+	if vpIsV12(ver) {
+		auth = append(auth, fa, fb)
+	}
+	r1, err1 := ResolveConflictsNew(ver, [][]PDU{setA, setB}, auth, vpUserIDForSender, vpNotRejected)
+	vpMapOrderReset()
+	r2, err2 := ResolveConflictsNew(ver, [][]PDU{setB, setA}, auth, vpUserIDForSender, vpNotRejected)
+	vpAssert("no-error", err1 == nil && err2 == nil)
+	vpAssert("order-independent", vpSameIDSet(r1, r2))
+	got := vpIDSet(r1)
+	for _, e := range agreed {
+		vpAssert("agreed-events-kept", got[e.EventID()])
+	}
+	// sender power: version 12 creators (Alice, Carol) are above every level; before, the level in the users map
+	aAbove, equal := true, false
+	if !vpIsV12(ver) {
+		pa := int64(100)
+		if senderA == vpCarol {
+			pa = c
+		}
+		aAbove, equal = pa > b, pa == b
+	}
+	// greatest power first; on equal power the earlier (timestamp, ID) first; the event applied last wins
+	bLast := aAbove || (equal && (tsB > tsA || (tsB == tsA && fb.EventID() > fa.EventID())))
+	vpAssert("winner-is-the-last-in-power-order", got[fb.EventID()] == bLast && got[fa.EventID()] == !bLast)
+	vpReach("b-wins", got[fb.EventID()])
+	if !vpIsV12(ver) {
+		vpReach("a-wins", got[fa.EventID()])
+	}
+}
